@@ -55,72 +55,138 @@ def component (ranges : List Item) (x : Nat) : Nat × Nat :=
     ranges.foldl (fun (c : Nat × Nat) r =>
       if decide (r.1 ≤ c.2) && decide (c.1 ≤ r.2) then (min c.1 r.1, max c.2 r.2) else c) c) (x, x)
 
-def run (op impl : String) : Ans :=
-  if impl.startsWith "HANG" then { model := "-", verdict := "FAIL:hang", tags := ["hang"] } else
-  if impl.startsWith "PANIC" then { model := "-", verdict := "FAIL:panic", tags := ["panic"] } else
-  let osecs := op.splitOn ";"
+def strOfHex (h : String) : String :=
+  match bytesOfHex h with
+  | some bs => String.ofList (bs.map fun b => Char.ofNat b.toNat)
+  | none => "?"
+
+def hexOfStr (v : String) : String := hexField (v.toList.map fun c => UInt8.ofNat c.toNat)
+
+/-- state carried through a history: the model's `IPTable`, and what the specification says is loaded -/
+structure HState where
+  table : IPTableM := none
+  spec : Option (List Item × List Nat) := none     -- (ranges, singles) whose union must be reported
+  specVer : String := ""
+
+structure StepAns where
+  model : String
+  verdict : String
+  tags : List String
+  st : HState
+
+def specQ (sp : Option (List Item × List Nat)) (o : Option Nat) : Bool :=
+  match sp, o with
+  | some (ranges, singles), some v => specSearch singles ranges v
+  | _, _ => false
+
+def stepRun (hs : HState) (op impl : String) : StepAns :=
+  let osecs0 := op.splitOn ";"
+  let kind := let k := field osecs0 "k"; if k == "" then "u" else k
+  let ver := let v := field osecs0 "v"; if v == "" then "" else strOfHex v
+  let osecs := osecs0.filter fun x => !(x.startsWith "k=" || x.startsWith "v=")
   let isecs := impl.splitOn ";"
-  if osecs.length != 3 then { model := "bad-op", verdict := "skip" } else
+  if osecs.length != 3 then { model := "bad-op", verdict := "skip", tags := [], st := hs } else
   let rtok := listOf (field osecs "r")
   let stok := listOf (field osecs "s")
   let ptok := listOf (field osecs "p")
-  -- model: inserts
-  let ins : List (Option Item) := rtok.map fun t =>
-    match t.splitOn ":" with
-    | [a, b] => insertPair (parseIP a) (parseIP b)
-    | _ => none
-  let ranges : List Item := ins.filterMap id
-  let sgl : List (Option Nat) := stok.map fun t => (parseIP t).map encIP
-  let singles : List Nat := sgl.filterMap id
   let probes : List (Option Nat) := ptok.map fun t => (parseIP t).map encIP
-  -- the sort oracle taken from the implementation, validated
-  let s1s := field isecs "s1"
-  let s2s := field isecs "s2"
-  let okQ := fun (o : Option Nat) => match o with | some v => specSearch singles ranges v | none => false
-  -- spec oracle on the implementation's answers
-  let implE := field isecs "e"
-  let implF := field isecs "f"
-  let implQ := (field isecs "q")
-  let expE := bits (ins.map Option.isNone)
-  let expF := bits (sgl.map Option.isNone)
-  let expQ := probes.map okQ
-  let zs := ranges.any fun r => r.1 == encIP 0
-  let v0 := ranges.any fun r => r.2 == encIP v4zero
+  -- inserts: flag 0 = pair stored, 1 = rejected, 2 = (file load only) start = end, stored as a single address
+  let ins : List (Nat × Option Item × Option Nat) := rtok.map fun t =>
+    match t.splitOn ":" with
+    | [a, b] =>
+      match parseIP a, parseIP b with
+      | some x, some y =>
+        if kind == "f" && x == y then (2, none, some (encIP x))
+        else match insertPair (some x) (some y) with
+          | some r => (0, some r, none)
+          | none => (1, none, none)
+      | _, _ => (1, none, none)
+    | _ => (1, none, none)
+  let ranges : List Item := ins.filterMap fun x => x.2.1
+  let sgl : List (Option Nat) := stok.map fun t => (parseIP t).map encIP
+  let singles : List Nat := (ins.filterMap fun x => x.2.2) ++ sgl.filterMap id
+  let expE := if kind == "n" then "." else
+    if ins.isEmpty then "." else String.ofList (ins.map fun x => if x.1 == 0 then '0' else if x.1 == 1 then '1' else '2')
+  let expF := if kind == "n" then "." else bits (sgl.map Option.isNone)
+  let anyErr := ins.any (fun x => x.1 == 1) || sgl.any Option.isNone
+  -- what happens to the table in this step
+  let status :=
+    if kind == "n" then "nil"
+    else if kind == "u" then "ok"
+    else if ver != "" && !needLoad hs.table.version ver then "skip"
+    else if anyErr then "err" else "ok"
+  -- specification: after a (successful) Update(X) exactly X is reported, whatever was loaded before
+  let spec' := if status == "ok" then some (ranges, singles) else if status == "nil" then none else hs.spec
+  let specVer' := if status == "ok" then ver else if status == "nil" then "" else hs.specVer
+  let expQ := probes.map (specQ spec')
+  let staleQ := probes.map (specQ hs.spec)
+  let implQ := field isecs "q"
+  let curRanges := match spec' with | some (r, _) => r | none => []
+  let curSingles := match spec' with | some (_, s) => s | none => []
+  let v0 := curRanges.any fun r => r.2 == encIP v4zero
   let verdict :=
-    if implE != expE || implF != expF then "FAIL:insert-validation"
+    if field isecs "e" != expE || field isecs "f" != expF then "FAIL:insert-validation"
+    else if field isecs "ld" != status || field isecs "ver" != hexOfStr specVer' then "FAIL:update-status"
     else if implQ == bits expQ then "ok"
+    else if (status == "ok" || status == "nil") && implQ == bits staleQ then "FAIL:update-stale"
     else
       let gotQ := implQ.toList.map (· == '1')
       match ((probes.zip expQ).zip gotQ).find? (fun x => x.1.2 != x.2) with
       | some ((some p, want), _) =>
         if !want then "FAIL:false-positive"
         else
-          let c := component ranges p
-          if singles.contains p then "FAIL:single-lost"
+          let c := component curRanges p
+          if curSingles.contains p then "FAIL:single-lost"
           else if c.1 == encIP 0 then "FAIL:zero-start"
           else if v0 && decide (c.1 ≤ encIP v4zero) && decide (encIP v4zero < p) then "FAIL:v4zero-end"
           else "FAIL:false-negative"
       | _ => "FAIL:probe-count"
-  match parseItems s1s, parseItems s2s with
+  let finish := fun (tbl : IPTableM) (mid : String) (tags : List String) =>
+    let q := probes.map tbl.search
+    { model := "e=" ++ expE ++ ";f=" ++ expF ++ mid ++ ";ld=" ++ status ++ ";ver=" ++ hexOfStr tbl.version ++ ";q=" ++ bits q,
+      verdict := verdict, tags := tags ++ [if kind == "u" then "update" else if kind == "n" then "update-nil" else "file-" ++ status],
+      st := { table := tbl, spec := spec', specVer := specVer' } : StepAns }
+  if status != "ok" then
+    finish (if status == "nil" then hs.table.update none else hs.table) ";s1=.;m=0;s2=.;t=." []
+  else
+  -- the sort oracle taken from the implementation, validated
+  match parseItems (field isecs "s1"), parseItems (field isecs "s2") with
   | some s1, some s2 =>
     let ok1 := s1.isPerm ranges && sortedDescB s1
     let b := mergeItemsA s1   -- the index-based array loops (= mergeItems by C19_merge_array_eq)
     let ok2 := s2.isPerm b.1 && sortedDescB s2
-    if !(ok1 && ok2) then { model := "inadmissible-sort-oracle", verdict := verdict, tags := ["bad-oracle"] } else
+    if !(ok1 && ok2) then { model := "inadmissible-sort-oracle", verdict := verdict, tags := ["bad-oracle"], st := hs } else
     let t := sortTable (fun _ => s1) (fun _ => s2) ranges
-    let q := probes.map fun o => match o with | some v => search singles t v | none => false
-    let m := "e=" ++ expE ++ ";f=" ++ expF ++ ";s1=" ++ renderItems s1 ++ ";m=" ++ toString b.2 ++
-             ";s2=" ++ renderItems s2 ++ ";t=" ++ renderItems t ++ ";q=" ++ bits q
     let n := ranges.length
     let tags :=
       (if b.2 > 0 then ["nt", "merge"] else ["nomerge"]) ++
       (if n > 12 then ["n>12"] else if s1 == goSort ranges && s2 == goSort b.1 then ["n<=12", "goSort-eq"] else ["n<=12", "goSort-ne"]) ++
-      (if zs then ["zero-start"] else []) ++ (if v0 then ["v4zero-end"] else []) ++
+      (if ranges.any (fun r => r.1 == encIP 0) then ["zero-start"] else []) ++ (if v0 then ["v4zero-end"] else []) ++
       (if singles.isEmpty then [] else ["singles"]) ++
       (if ranges.any (fun r => isV4 (r.1 - 1)) then ["v4"] else []) ++
       (if ranges.any (fun r => !isV4 (r.1 - 1)) then ["v6"] else []) ++
-      (if ins.any Option.isNone then ["rejected-range"] else [])
-    { model := m, verdict := verdict, tags := tags }
-  | _, _ => { model := "unparsable-impl", verdict := verdict, tags := ["bad-oracle"] }
+      (if ins.any (fun x => x.1 == 1) then ["rejected-range"] else []) ++
+      (if hs.table.isSome && hs.table.version == ver then [if ver == "" then "same-version-empty" else "same-version"] else [])
+    finish (hs.table.update (some { singles := singles, table := t, version := ver }))
+      (";s1=" ++ renderItems s1 ++ ";m=" ++ toString b.2 ++ ";s2=" ++ renderItems s2 ++ ";t=" ++ renderItems t) tags
+  | _, _ => { model := "unparsable-impl", verdict := verdict, tags := ["bad-oracle"], st := hs }
+
+def run (op impl : String) : Ans :=
+  if impl.startsWith "HANG" then { model := "-", verdict := "FAIL:hang", tags := ["hang"] } else
+  if impl.startsWith "PANIC" then { model := "-", verdict := "FAIL:panic", tags := ["panic"] } else
+  let osteps := op.splitOn "|"
+  let isteps := impl.splitOn "|"
+  let rec go (hs : HState) : List String → List String → List StepAns
+    | o :: os, i :: is => let a := stepRun hs o i; a :: go a.st os is
+    | o :: os, [] => let a := stepRun hs o ""; a :: go a.st os []
+    | [], _ => []
+  let as := go {} osteps isteps
+  let verdict :=
+    match as.find? (fun a => a.verdict != "ok") with
+    | some a => a.verdict
+    | none => if isteps.length != osteps.length then "FAIL:step-count" else "ok"
+  let tags := (as.foldl (fun acc a => acc ++ a.tags.filter (fun t => !acc.contains t)) []) ++
+    (if osteps.length > 1 then ["history"] else [])
+  { model := "|".intercalate (as.map (·.model)), verdict := verdict, tags := tags }
 
 end BfeVerif.C19
